@@ -36,6 +36,7 @@ type Opts struct {
 	Versions    []string // protocol versions a chain may use, ascending; nil = all verified formats
 	MaxTxs      int      // max transactions per block (default 4)
 	NoNoopZero  bool     // never write zero to a slot that is already zero
+	NoNoopWrite bool     // never write a slot's current value (implies NoNoopZero)
 	NoSystem    bool     // never touch system contracts 0x1/0x2
 	NoClasses   bool     // never declare classes
 	NoMigration bool
@@ -411,7 +412,10 @@ func (g *Gen) storageWrites(sd core.StateDiff, addr *felt.Felt, c *Contract) {
 		default:
 			v = F(1 + uint64(r.IntN(60)))
 		}
-		if v.IsZero() && !has && g.Opt.NoNoopZero {
+		if v.IsZero() && !has && (g.Opt.NoNoopZero || g.Opt.NoNoopWrite) {
+			continue
+		}
+		if has && v.Equal(&cur) && g.Opt.NoNoopWrite {
 			continue
 		}
 		if sd.StorageDiffs[*addr] == nil {
